@@ -123,7 +123,7 @@ def check_session(inst, side, pw, ids, x, inbounds, acc, do_fresh=True, do_resto
                                    "replay": dict(desc, fn="finish", inbound=inbound, mode=mode), "expected": "raises", "observed": got})
     # a state taken AFTER finish(): serialize() may refuse by then, but a blob it does return is a persisted session like any
     # other - restored, it must again compute what the definition says for the original password, identities and scalar
-    if got_first is not None and inbounds and (inst.small or (x + len(pw)) % 4 == 0):
+    if got_first is not None and inbounds and (x + len(pw)) % 4 == 0:
         late = T.observe(T.do_serialize, s)
         acc.n(transitions=1)
         if late[0] == "ok":
